@@ -10,14 +10,18 @@ pub struct Prop {
 
 pub mod c01;
 pub mod c02;
+pub mod c03;
 pub mod c04;
 pub mod c21;
+pub mod c26;
 
 pub fn registry() -> Vec<Prop> {
     vec![
         Prop { id: "C01", run: c01::run, replay: c01::replay },
         Prop { id: "C02", run: c02::run, replay: c02::replay },
+        Prop { id: "C03", run: c03::run, replay: c03::replay },
         Prop { id: "C04", run: c04::run, replay: c04::replay },
         Prop { id: "C21", run: c21::run, replay: c21::replay },
+        Prop { id: "C26", run: c26::run, replay: c26::replay },
     ]
 }
